@@ -12,6 +12,11 @@ strict tests of the loops, the dispatch programs of `wrapper` and `async_wrapper
 the Parameter's own, or the `parameter_name` the `ValidatorException` already carries — ends up in the exception), the
 arguments `Parameter.validate` passes to it, and `Validator.validate_param` (which labels the exception of a delegate).
 
+Also generated, statement by statement: the body of `Parameter.validate` (`validateProg`, interpreted by `execV` below), what the
+branches of the three loops file and book (`Write` records), where the `zip` branch takes the surplus positionals from and its
+strict test (`zipSurplusSource`, `zipStrictTest`), and the decision table of the third loop (`absentAct`).  The hand-readable normal
+forms of these definitions are in `PedVerif/Lemmas/ValidateRef.lean`, with the equations that tie them to the generated programs.
+
 Conversion (`convert_value`) and validators are *abstract* functions `PV → Except Rej PV` stored in the parameter, so
 every theorem holds for any validator, user-defined ones included.
 -/
@@ -91,6 +96,7 @@ inductive VExc where
   | keyError                              -- `result.pop('self')` / `result[n]` without the key (unreachable in the current code)
   | notCalled                             -- the wrapper fell off its end without calling `func` (unreachable in the current code)
   | bodyTypeError                         -- Python refused the call `func(...)`: TypeError before the body runs
+  | unboundLocal                          -- `UnboundLocalError`: the accumulator of `Parameter.validate` read before it is bound (unreachable in the current code)
 deriving DecidableEq, Repr
 
 /-- a `Parameter` as passed to `@validate(...)` -/
@@ -108,29 +114,57 @@ structure VParam where
 /-- `self.is_required = False if default != NoValue else required` (generated) -/
 def VParam.isRequired (p : VParam) : Bool := isRequiredRule p.dflt.isSome p.requiredArg
 
-/-- the `for validator in self.validators` loop: each validator receives its predecessor's output; a `ValidatorException` `e`
-    becomes `self.exception_type.from_validator_exception(exception=e, parameter_name=self.name)`, whose `parameter_name` is
-    the generated `chainHandlerName self.name e.parameter_name` -/
-def runValidators (name : Name) : List Step → Nat → PV → Except VExc PV
-  | [], _, v => .ok v
-  | f :: fs, j, v =>
-    match f v with
-    | .ok w => runValidators name fs (j + 1) w
-    | .error (.rejected carried) => .error (.parameter (chainHandlerName name carried) (.validator j))
-    | .error (.crash e) => .error (.foreign e)
+/-- what a statement of `Parameter.validate` feeds / returns -/
+def feedPick (f : Feed) (value : PV) (acc : Option PV) : Option PV :=
+  match f with | .acc => acc | .original => some value
 
-/-- `Parameter.validate` -/
-def VParam.validate (p : VParam) (v : PV) : Except VExc PV :=
-  match v with
-  | .none => if p.isRequired then .error (.parameter p.name .required) else .ok .none
-  | .obj i =>
+/-- the `for validator in self.validators` loop (generated: over all validators or a slice, what each validator is fed, which
+    exceptions the handler catches): a `ValidatorException` `e` becomes `self.exception_type.from_validator_exception(exception=e,
+    parameter_name=self.name)`, whose `parameter_name` is the generated `chainHandlerName self.name e.parameter_name` -/
+def runChain (name : Name) (feed : Feed) (c : Catch) (value : PV) : List Step → Nat → Option PV → Except VExc (Option PV)
+  | [], _, acc => .ok acc
+  | f :: fs, j, acc =>
+    match feedPick feed value acc with
+    | Option.none => .error .unboundLocal
+    | some x =>
+      match f x with
+      | .ok w => runChain name feed c value fs (j + 1) (some w)
+      | .error (.rejected carried) => .error (.parameter (chainHandlerName name carried) (.validator j))
+      | .error (.crash e) =>
+        match c with
+        | .only => .error (.foreign e)
+        | .all => .error (.parameter (chainHandlerName name emptyName) (.validator j))
+
+/-- interpreter of the generated program of `Parameter.validate`: `acc` is the accumulator variable (`none` = not bound yet) -/
+def execV (p : VParam) (value : PV) : List VStmt → Option PV → Except VExc PV
+  | [], _ => .ok .none                                  -- falls off the end: returns None
+  | .noneRule raises returns :: rest, acc =>
+    if value.isNone then
+      if raises && p.isRequired then .error (.parameter (raiseExceptionName p.name) .required)   -- `self.raise_exception(...)`
+      else if returns then .ok .none else execV p value rest acc
+    else execV p value rest acc
+  | .convert c keeps :: rest, acc =>
     match p.conv with
-    | Option.none => runValidators p.name p.validators 0 (.obj i)
-    | some c =>
-      match c (.obj i) with
-      | .ok w => runValidators p.name p.validators 0 w
-      | .error (.rejected _) => .error (.parameter p.name .convert)   -- `self.raise_exception(...)`: `parameter_name=self.name`
-      | .error (.crash e) => .error (.foreign e)
+    | some cv =>
+      match cv value with
+      | .ok w => execV p value rest (some w)
+      | .error (.rejected _) => .error (.parameter (raiseExceptionName p.name) .convert)          -- `return self.raise_exception(...)`
+      | .error (.crash e) =>
+        match c with
+        | .only => .error (.foreign e)
+        | .all => .error (.parameter (raiseExceptionName p.name) .convert)
+    | Option.none => execV p value rest (if keeps then some value else acc)
+  | .chain overAll feed c :: rest, acc =>
+    match runChain p.name feed c value (if overAll then p.validators else p.validators.drop 1) 0 acc with
+    | .ok acc' => execV p value rest acc'
+    | .error e => .error e
+  | .ret what :: _, acc =>
+    match feedPick what value acc with
+    | some v => .ok v
+    | Option.none => .error .unboundLocal
+
+/-- `Parameter.validate`: the generated program `validateProg`, statement by statement -/
+def VParam.validate (p : VParam) (v : PV) : Except VExc PV := execV p v validateProg Option.none
 
 /-- `parameter_dict = {parameter.name: parameter for parameter in parameters}`: the last declaration of a name wins -/
 def findP : List VParam → Name → Option VParam
@@ -175,15 +209,22 @@ def Sig.posNames (s : Sig) : List Name := s.pos.map (·.name)
 /-- `signature.parameters[name].default` when present and not `empty` -/
 def Sig.default? (s : Sig) (n : Name) : Option PV := (s.named.find? (·.name == n)).bind (·.dflt)
 
+/-- a branch of a loop files its result: under which key, and whether the value went through `parameter.validate` (generated) -/
+def writeKey (w : Write) (k : Name) (p : VParam) : Name := if w.keyIsParamName then p.name else k
+def writeValue (w : Write) (p : VParam) (v : PV) : Except VExc PV := if w.validated then p.validate v else .ok v
+/-- `used_parameter_names.append(parameter.name)` / `used_args.append(<raw value>)`, if the branch has them (generated) -/
+def writeMark (w : Write) (used : List Name) (p : VParam) : List Name := if w.marksUsed then used ++ [p.name] else used
+def writeRecord (w : Write) (ua : List PV) (v : PV) : List PV := if w.recordsArg then ua ++ [v] else ua
+
 /-- first loop: `for k, v in kwargs.items()` -/
-def loopKw (ps : List VParam) (strict : Bool) : List (Name × PV) → Assoc → List Name → Except VExc (Assoc × List Name)
+def loopKwG (ps : List VParam) (strict : Bool) : List (Name × PV) → Assoc → List Name → Except VExc (Assoc × List Name)
   | [], res, used => .ok (res, used)
   | (k, v) :: rest, res, used =>
     match findP ps k with
     | some p => do
-        let v' ← p.validate v
-        loopKw ps strict rest (res.set k v') (used ++ [p.name])
-    | Option.none => if kwStrictTest strict k then .error .tooMany else loopKw ps strict rest (res.set k v) used   -- test generated
+        let v' ← writeValue kwDeclaredWrite p v
+        loopKwG ps strict rest (res.set (writeKey kwDeclaredWrite k p) v') (writeMark kwDeclaredWrite used p)
+    | Option.none => if kwStrictTest strict k then .error .tooMany else loopKwG ps strict rest (res.set k v) used   -- test generated
 
 /-- `signature.bind_partial(*args).arguments` as the second loop consumes it: `named` are the entries that go through the
     branches `elif k in parameter_dict` / `else` (signature order); `extras` are the surplus positionals when the (generated)
@@ -202,45 +243,67 @@ def bindPartial (sig : Sig) (args : List PV) : Except VExc Bound :=
     else .ok ⟨sig.posNames.zip args ++ [(sig.varName, sig.tupleOf (args.drop sig.pos.length))], []⟩
   else .error .validate          -- `except TypeError as ex: raise ValidateException(str(ex))`
 
-/-- second loop, the branches `elif k in parameter_dict` / `else`; `recv` is the value of `receiver_name` -/
-def loopPos (ps : List VParam) (strict : Bool) (recv : Option Name) :
+/-- second loop, the branches `elif k in parameter_dict` / `else`; `recv` is the value of `receiver_name`; the last component
+    is `used_args` (in the current source nothing reads it any more unless the zip branch filters the positionals with it) -/
+def loopPosG (ps : List VParam) (strict : Bool) (recv : Option Name) :
     List (Name × PV) → Assoc → List Name → List PV → Except VExc (Assoc × List Name × List PV)
   | [], res, used, ua => .ok (res, used, ua)
   | (k, v) :: rest, res, used, ua =>
     match findP ps k with
     | some p => do
-        let v' ← p.validate v
-        loopPos ps strict recv rest (res.set k v') (used ++ [p.name]) (ua ++ [v])
+        let v' ← writeValue posDeclaredWrite p v
+        loopPosG ps strict recv rest (res.set (writeKey posDeclaredWrite k p) v') (writeMark posDeclaredWrite used p) (writeRecord posDeclaredWrite ua v)
     | Option.none =>
-      if posStrictTest strict k recv then .error .tooMany else loopPos ps strict recv rest (res.set k v) used ua   -- test generated
+      if posStrictTest strict k recv then .error .tooMany
+      else loopPosG ps strict recv rest (res.set k v) used (writeRecord posUndeclaredWrite ua v)   -- test generated
 
-/-- second loop, the branch `if k == 'args' and wants_args`: the inner `for arg, parameter in zip(…)` -/
-def loopZip : List (PV × VParam) → Assoc → List Name → Except VExc (Assoc × List Name)
+/-- second loop, the branch of the VAR_POSITIONAL parameter: the inner `for arg, parameter in zip(…)` -/
+def loopZipG : List (PV × VParam) → Assoc → List Name → Except VExc (Assoc × List Name)
   | [], res, used => .ok (res, used)
   | (a, p) :: rest, res, used => do
-    let v' ← p.validate a
-    loopZip rest (res.set p.name v') (used ++ [p.name])
+    let v' ← writeValue zipWrite p a
+    loopZipG rest (res.set p.name v') (writeMark zipWrite used p)
 
-/-- `zip([a for a in args if a not in used_args], [p for p in parameters if p.name not in used_parameter_names])` -/
-def zipPairs (ps : List VParam) (args : List PV) (used : List Name) (ua : List PV) : List (PV × VParam) :=
-  (args.filter (fun a => !ua.contains a)).zip (ps.filter (fun p => !used.contains p.name))
+/-- the surplus positionals as the zip branch sees them (generated source): the tuple `bind_partial` bound to the VAR_POSITIONAL
+    parameter (`extras`) — or, in the former shape of the source, ALL positionals of the call (the receiver of a method included)
+    that are not EQUAL (`==`) to an argument validated so far -/
+def surplusOf (args extras ua : List PV) : List PV :=
+  match zipSurplusSource with
+  | .argsNotUsed => args.filter (fun a => !ua.contains a)
+  | .boundTuple => extras
 
-/-- third loop: `for parameter in unused_parameters` -/
-def loopUnused (sig : Sig) : List VParam → Assoc → Except VExc Assoc
+/-- `[p for p in parameters if p.name not in used_parameter_names]` -/
+def unusedParams (ps : List VParam) (used : List Name) : List VParam := ps.filter (fun p => !used.contains p.name)
+
+/-- `zip(<surplus>, <unused parameters>)` -/
+def zipPairs (ps : List VParam) (args extras : List PV) (used : List Name) (ua : List PV) : List (PV × VParam) :=
+  (surplusOf args extras ua).zip (unusedParams ps used)
+
+/-- the test in front of the inner loop (generated; `false` when the source has none): more surplus positionals than Parameters left -/
+def zipRefuses (ps : List VParam) (strict : Bool) (args extras : List PV) (used : List Name) (ua : List PV) : Bool :=
+  zipStrictTest strict (surplusOf args extras ua).length (unusedParams ps used).length
+
+/-- third loop: `for parameter in unused_parameters` (decision table generated) -/
+def loopUnusedG (sig : Sig) : List VParam → Assoc → Except VExc Assoc
   | [], res => .ok res
   | p :: rest, res =>
-    match p.ext with
-    | some v => do
-        let v' ← p.validate v
-        loopUnused sig rest (res.set p.name v')
-    | Option.none =>
-      if p.isRequired then .error (.parameter p.name .required) else
+    match absentAct p.ext.isSome p.ext.isSome p.isRequired p.dflt.isSome (sig.named.any (·.name == p.name)) (sig.default? p.name).isSome with
+    | .external =>
+      match p.ext with
+      | some v => do
+          let v' ← p.validate v
+          loopUnusedG sig rest (res.set p.name v')
+      | Option.none => .error .keyError                     -- `load_value()` of a source without value (unreachable: the table asks `has_value()`)
+    | .raiseRequired => .error (.parameter (raiseExceptionName p.name) .required)
+    | .paramDefault =>
       match p.dflt with
-      | some d => loopUnused sig rest (res.set p.name d)
-      | Option.none =>
-        match sig.default? p.name with
-        | some d => loopUnused sig rest (res.set p.name d)
-        | Option.none => .error .validate
+      | some d => loopUnusedG sig rest (res.set p.name d)
+      | Option.none => .error .keyError                     -- `default_value` is `NoValue`: unreachable (the table asks first)
+    | .sigDefault =>
+      match sig.default? p.name with
+      | some d => loopUnusedG sig rest (res.set p.name d)
+      | Option.none => .error .keyError                     -- no such default: unreachable (the table asks first)
+    | .raiseValidate => .error .validate
 
 /-- what the Flask `request` proxy shows -/
 inductive Req where
@@ -268,13 +331,15 @@ structure Cfg where
 def runLoop (c : Cfg) (args : List PV) (kw : List (Name × PV)) (l : Loop) (st : Assoc × List Name) :
     Except VExc (Assoc × List Name) :=
   match l with
-  | .kw => loopKw c.ps c.strict kw st.1 st.2
+  | .kw => loopKwG c.ps c.strict kw st.1 st.2
   | .pos => do
       let b ← bindPartial c.sig args
-      let (r, u, ua) ← loopPos c.ps c.strict c.sig.receiver b.named st.1 st.2 []
-      if b.extras.isEmpty then pure (r, u) else loopZip (zipPairs c.ps args u ua) r u
+      let (r, u, ua) ← loopPosG c.ps c.strict c.sig.receiver b.named st.1 st.2 []
+      if b.extras.isEmpty then pure (r, u)
+      else if zipRefuses c.ps c.strict args b.extras u ua then .error .tooMany
+      else loopZipG (zipPairs c.ps args b.extras u ua) r u
   | .unused => do
-      let r ← loopUnused c.sig (c.ps.filter (fun p => !st.2.contains p.name)) st.1
+      let r ← loopUnusedG c.sig (c.ps.filter (fun p => !st.2.contains p.name)) st.1
       pure (r, st.2)
 
 /-- `_wrapper_content(*args, **kwargs)` -/
